@@ -1,0 +1,12 @@
+//go:build verif
+
+// Contracts for the verification harness in /verif (comment-only).
+
+package linux
+
+// errno(e) is the specification of ExtractErrno: the Linux errno equivalent
+// to an error value (found through wrapped chains, EIO when there is none).
+//@ func ExtractErrno
+//@   abstract
+//@   ensures[C03,C04,C15] result == errno(err)
+//@   ensures[C03,C04,C15] typeis(err, Errno) ==> result == unbox(err, Errno)
